@@ -77,7 +77,7 @@ def gen_call(rng):
         mn = rng.randint(3, 8)
         return dict(op="recursive", x=x, thr1000=rng.choice([1, 10, 50, 100, 200]), minlen=mn, maxlen=rng.randint(mn + 2, 30),
                     flanks=rng.randint(0, 5), window=0, flank=0)
-    return dict(op="tfmodisco", x=x, thr1000=0, minlen=0, maxlen=0, flanks=0, window=rng.choice([5, 9, 15, 21]), flank=rng.choice([0, 2, 5, 10]))
+    return dict(op="tfmodisco", x=x, thr1000=0, minlen=0, maxlen=0, flanks=0, window=rng.choice([4, 5, 6, 9, 10, 15, 21]), flank=rng.choice([0, 2, 5, 10]))
 
 
 def handler(case):
